@@ -258,6 +258,7 @@ def depends(rep, repo):
     # both simulators execute the op list SimOps builds: the node -> op translation rule of C01 is part of this check
     from checks import c01
     c01.wiring_rules(rep, repo)
+    c01.plumbing_rules(rep, repo)   # assign / capture / transfer of LogicSim
 
 
 def thorough(rep, repo):
